@@ -214,6 +214,7 @@ def c16(c):
             sel = rng.sample(files, 3)
             log.run(cff, root, pkg, "base", files=sel, alt={sel[1]: "other_out.go"})
     log.judge("output paths")
+    G.history_replay(c, cff, 10 if c.quick else 120, 6 if c.quick else 7, name="genfs16")
     c.assumptions += ["truth tables are computed with go/build/constraint over the tags {cff,a,b}"]
     return c.finish("model_checking", "spec: TLC checks FlipCorrect for every constraint expression with <=3 (thorough: <=4) leaves; impl: every "
                     "enumerated expression mentioning cff is rendered as //go:build, as // +build lines and as both, processed by the real "
@@ -256,9 +257,13 @@ def c17(c):
         if len(c.cov["samples"]) < 2:
             e = log.events[len(log.events) // 2]
             c.cov["samples"].append({k: e[k] for k in ("pkg", "mode", "flags", "selected", "outputs", "rc", "written")})
+    # spec -> code: histories of spec/GenFS.tla (edits, selections, other output paths, deleted and older outputs in
+    # the way) performed on a real package; after every step the directory must be what the model says
+    n += G.history_replay(c, cff, 12 if c.quick else 150, 6 if c.quick else 7)
     c.cov["evaluations"] = n
     c.cov["distinct_nontrivial"] = c.cov.get("generator_functions_learnt", 0)
-    return c.finish("model_checking", GRULE + "; one evaluation = one invocation of cff (whole package three times per mode/flags in fresh processes, "
+    return c.finish("model_checking", GRULE + "; plus behaviours of spec/GenFS.tla chosen by TLC's simulator and replayed step by step on a real package; "
+                    "one evaluation = one invocation of cff (whole package three times per mode/flags in fresh processes, "
                     "files alone with -file=IN=OUT, pairs of files in reversed order); every invocation is an event of spec/GenPipeline.tla "
                     "(validated by GenTrace.tla, TLC), whose monitor fixes the content per (package, file, mode, flags) at first observation; "
                     "distinct_nontrivial = number of such keys learnt", distinct_nontrivial=c.cov.get("generator_functions_learnt", 0))
